@@ -57,33 +57,33 @@ type node struct {
 	slept bool
 }
 
-func (r *ring) PutOne(_ context.Context, m Completed) (chan RedisResult, error) {
+func (r *ring) PutOne(ctx context.Context, m Completed) (chan RedisResult, error) {
 	n := &r.store[atomic.AddUint32(&r.write, 1)&r.mask]
-	verifYield(nil, "ring.put.lock", n, m)
+	verifYield(ctx, "ring.put.lock", n, m)
 	n.c1.L.Lock()
 	for n.mark != 0 {
 		n.c1.Wait()
-		verifYield(nil, "ring.put.woken", n, m)
+		verifYield(ctx, "ring.put.woken", n, m)
 	}
 	n.one = m
 	n.mark = 1
 	s := n.slept
 	verifTrace("ring.put", n, 1, 0)
 	n.c1.L.Unlock()
-	verifYield(nil, "ring.put.unlocked", n, m)
+	verifYield(ctx, "ring.put.unlocked", n, m)
 	if s {
 		n.c2.Broadcast()
 	}
 	return n.ch, nil
 }
 
-func (r *ring) PutMulti(_ context.Context, m []Completed, resps []RedisResult) (chan RedisResult, error) {
+func (r *ring) PutMulti(ctx context.Context, m []Completed, resps []RedisResult) (chan RedisResult, error) {
 	n := &r.store[atomic.AddUint32(&r.write, 1)&r.mask]
-	verifYield(nil, "ring.put.lock", n, verifFirst(m))
+	verifYield(ctx, "ring.put.lock", n, verifFirst(m))
 	n.c1.L.Lock()
 	for n.mark != 0 {
 		n.c1.Wait()
-		verifYield(nil, "ring.put.woken", n, verifFirst(m))
+		verifYield(ctx, "ring.put.woken", n, verifFirst(m))
 	}
 	n.multi = m
 	n.resps = resps
@@ -91,7 +91,7 @@ func (r *ring) PutMulti(_ context.Context, m []Completed, resps []RedisResult) (
 	s := n.slept
 	verifTrace("ring.put", n, 1, 0)
 	n.c1.L.Unlock()
-	verifYield(nil, "ring.put.unlocked", n, verifFirst(m))
+	verifYield(ctx, "ring.put.unlocked", n, verifFirst(m))
 	if s {
 		n.c2.Broadcast()
 	}
